@@ -855,4 +855,5 @@ impl RestorePlan {
 #[allow(missing_docs, unused_imports, dead_code, clippy::all, clippy::pedantic, clippy::nursery)]
 pub mod verif_hooks {
     use super::*;
+    pub use super::SparseRestore;
 }
